@@ -116,7 +116,8 @@ CanonDict(ps, d) ==
                  [] p.k \in {"VALUE", "SYSTEM"} -> CanonDop(p.dop, IF IsMissing(v) THEN p.dv ELSE v)
                  [] p.k = "TABLE-KEY" ->    \* the row named explicitly, or by the TABLE-STRUCT that uses the key
                       LET users == {j \in 1..Len(ps) : ps[j].k = "TABLE-STRUCT" /\ ps[j].sys = p.n /\ ~IsMissing(DictGet(d, ps[j].n))} IN
-                      IF ~IsMissing(v) THEN v
+                      IF StaticKey(p) THEN p.cv
+                      ELSE IF ~IsMissing(v) THEN v
                       ELSE IF users # {} THEN Str(DictGet(d, ps[CHOOSE j \in users : TRUE].n).a) ELSE Missing
                  [] p.k = "TABLE-STRUCT" ->
                       IF IsMissing(v) \/ v.t # "pair" \/ RowsNamed(p.dop, v.a) = {} THEN Missing
